@@ -89,6 +89,15 @@ def reader_gen(tier, rng, boost=1):
             for f in int_formats(v):
                 for T in INT_TARGETS:
                     ops.append(read_op(rng.choice(["mem", "stream"]), "skip", rng.choice(["skip", "throw"]), T, 0, enc_int(v, f) + TAIL))
+    # float 64 values beyond / at / inside the range of a float target: under Skip the out-of-range value is consumed, the target keeps its
+    # content and the value is reported as NOT loaded (both readers)
+    import struct
+    for v in (3.5e38, -3.5e38, 1e300, -1e300, 1.7976931348623157e308, 3.4028234663852886e38, -3.4028234663852886e38, 3.4028235677973366e38,
+              3.402823466385289e38, 1.5, -0.0, 1e-320):
+        for src in ("mem", "stream"):
+            for ovf in ("skip", "throw"):
+                for pre in (0, 250):
+                    ops.append(read_op(src, ovf, "skip", "f32", pre, b"\xCB" + struct.pack(">d", v) + TAIL))
     # nil is skipped (returned false) whatever the policy
     for T in ALL_TARGETS:
         for src in ("mem", "stream"):
